@@ -34,10 +34,16 @@ fn jtable(sh: &Shell) -> String {
     format!("[{}]", v.join(","))
 }
 
+/// alias arguments carry their tag as a first character: N (none), S (single quote), D (double quote)
 fn mk(args: &[&str], name: &str) -> (CommandLine, Command) {
     let mut tokens: Vec<(String, String)> = vec![(String::new(), name.to_string())];
     for a in args {
-        tokens.push((String::new(), a.to_string()));
+        if name == "alias" {
+            let sep = match &a[..1] { "S" => "'", "D" => "\"", _ => "" };
+            tokens.push((sep.to_string(), a[1..].to_string()));
+        } else {
+            tokens.push((String::new(), a.to_string()));
+        }
     }
     let cmd = Command { tokens: tokens.clone(), redirects_to: Vec::new(), redirect_from: None };
     let cl = CommandLine {
@@ -65,8 +71,9 @@ fn scenario(ops: &[&str]) -> String {
                 let cr = if f[0] == "B" { alias::run(&mut sh, &cl, &cmd, true) } else { unalias::run(&mut sh, &cl, &cmd, true) };
                 let mut unq = String::from("[]");
                 if f.len() == 2 {
-                    if let Some(p) = f[1].find('=') {
-                        let (a, b) = (&f[1][..p], &f[1][p + 1..]);
+                    let arg = if f[0] == "B" { &f[1][1..] } else { f[1] };
+                    if let Some(p) = arg.find('=') {
+                        let (a, b) = (&arg[..p], &arg[p + 1..]);
                         unq = format!("[[{},{}],[{},{}]]", jq(a), jq(&tools::unquote(a)), jq(b), jq(&tools::unquote(b)));
                     }
                 }
